@@ -616,3 +616,34 @@ fn scalar_helpers() {
     assert!(lang_matches("", ""));
     assert!(!lang_matches("en", "en-US"));
 }
+
+#[test]
+fn trace_records_conversions() {
+    let t = from_xml(r#"<r k="v"><a>1e2</a></r>"#).unwrap();
+    let nsb = ns();
+    let env = Env::new(&t, &nsb);
+    vp_xref::trace::start();
+    let v = eval_root(&parse("concat(number(//a), 1 div 3, round(2.5), count(//@k/following::*))").unwrap(), &env).unwrap();
+    let tr = vp_xref::trace::take();
+    assert_eq!(v, Value::Str("NaN0.333333333333333331".to_string()));
+    assert_eq!(tr.str_to_num, ["1e2"]);
+    assert_eq!(tr.num_to_str.len(), 4);
+    assert_eq!(tr.rounded, [2.5]);
+    assert_eq!(tr.events, ["following-from-attr-or-ns"]);
+    // off again
+    let _ = eval_root(&parse("string(1.5)").unwrap(), &env).unwrap();
+    assert!(vp_xref::trace::take().num_to_str.is_empty());
+    assert_eq!(vp_xref::parse::number_tokens("1.50 + .5 * a1 - '7'").unwrap(), ["1.50", ".5"]);
+}
+
+#[test]
+fn unbound_prefix_is_an_error_of_the_step() {
+    let t = empty_doc();
+    // no candidate node at all, still an error once the step is evaluated
+    assert!(matches!(ev_at(&t, 0, "/r/zz:a"), Err(EvalError::UnboundPrefix(_))));
+    assert!(matches!(ev_at(&t, 0, "/nope/zz:a"), Err(EvalError::UnboundPrefix(_))));
+    assert!(matches!(ev_at(&t, 0, "/r/@zz:*"), Err(EvalError::UnboundPrefix(_))));
+    // ... but not when the sub-expression is never evaluated
+    assert_eq!(ev_at(&t, 0, "true() or zz:a").unwrap(), Value::Bool(true));
+    assert_eq!(ev_at(&t, 0, "count(/nope[zz:a])").unwrap(), Value::Num(0.0));
+}
